@@ -34,7 +34,7 @@ type Prop struct{}
 func (Prop) ID() string    { return "C10" }
 func (Prop) Level() string { return "fault_enumeration" }
 func (Prop) Rule() string {
-	return "a case is (scenario, operation); the scenario (tree shape, batch sizes, snapshot placement) is drawn from the PRNG, the operation is one of space-create, tree-create-eager, tree-create-deferred, local-add, snapshot-add, remote-add, remote-add-rebuild, acl-add, tree-delete. A dry run on a copy of the prepared database counts the operation's storage-call boundaries (begin / insert / upsert / update / delete / commit / rollback); then EVERY boundary index is executed once in crash-image mode (database file + WAL copied at that instant, reopened, compared with the before- and after-observation, structural invariants checked) and once in error mode (the call returns an injected error; live object vs storage, re-submission). Non-trivial = an executed (scenario, operation, boundary, mode) point whose fault actually fired; distinct = that tuple."
+	return "a case is (scenario, operation); the scenario (tree shape, batch sizes, snapshot placement) is drawn from the PRNG, the operation is one of space-create, tree-create-eager, tree-create-deferred, local-add, snapshot-add, remote-add, remote-add-rebuild, acl-add, tree-delete. A dry run on a copy of the prepared database counts the operation's storage-call boundaries (begin / insert / upsert / update / delete / commit / rollback); then EVERY boundary index is executed once in crash-image mode (database file + WAL copied at that instant, reopened, compared with the before- and after-observation, structural invariants checked) and once in error mode (the call returns an injected error; live object vs storage, re-submission); local adds additionally once with the fault being the caller's context cancelled at that boundary. Non-trivial = an executed (scenario, operation, boundary, mode) point whose fault actually fired; distinct = that tuple."
 }
 func (Prop) Assumptions() []string {
 	return []string{"crash = process death (files as written so far: database file + WAL); no power-loss reordering of writes", "faults are placed at any-store API boundaries, where the repository's storage code issues them", "one fault per operation"}
@@ -57,6 +57,7 @@ func (Prop) Plan(tier string) []lib.Workload {
 var bg = context.Background()
 
 type env struct {
+	opCtx context.Context // context of the local add (nil = background); cancelled-caller faults cancel it
 	c    *lib.Case
 	s    *netsim.Sim
 	op   string
@@ -247,7 +248,11 @@ func (e *env) perform(cl *netsim.Replica) (err error) {
 	case "local-add", "snapshot-add":
 		cl.Tree.Lock()
 		defer cl.Tree.Unlock()
-		_, err := cl.Tree.AddContent(bg, objecttree.SignableChangeContent{Data: e.addData, Key: cl.Keys.SignKey, IsSnapshot: e.op == "snapshot-add",
+		actx := bg
+		if e.opCtx != nil {
+			actx = e.opCtx
+		}
+		_, err := cl.Tree.AddContent(actx, objecttree.SignableChangeContent{Data: e.addData, Key: cl.Keys.SignKey, IsSnapshot: e.op == "snapshot-add",
 			ShouldBeEncrypted: s.Cfg.Encrypted, Timestamp: 1800000000, DataType: "verif"})
 		return err
 	case "remote-add", "remote-add-rebuild":
@@ -524,7 +529,10 @@ func (e *env) enumerate() {
 	}
 	for k := 0; k < n; k++ {
 		e.imageAt(k, names[k], before, after, keys)
-		e.errorAt(k, names[k], before, after, keys)
+		e.errorAt(k, names[k], before, after, keys, false)
+		if e.op == "local-add" || e.op == "snapshot-add" {
+			e.errorAt(k, names[k], before, after, keys, true)
+		}
 	}
 }
 
@@ -634,7 +642,13 @@ func (e *env) liveAgrees(cl *netsim.Replica) []string {
 	return out
 }
 
-func (e *env) errorAt(k int, name string, before, after durable, keys *netsim.Replica) {
+func (e *env) errorAt(k int, name string, before, after durable, keys *netsim.Replica, cancelCaller bool) {
+	pfx := "error"
+	if cancelCaller {
+		// the fault is the CALLER's context being cancelled at this boundary (added after seeded change C10-6 -
+		// the rollback rebuild run under the caller's dead context - was missed)
+		pfx = "cancelled-caller"
+	}
 	c := e.c
 	cl, _, err := e.subject()
 	if err != nil {
@@ -643,7 +657,14 @@ func (e *env) errorAt(k int, name string, before, after durable, keys *netsim.Re
 	}
 	defer cl.CloseDetached()
 	e.ctl.Reset(faultstore.ErrorAt, k, "")
+	if cancelCaller {
+		cctx, cancel := context.WithCancel(bg)
+		defer cancel()
+		e.opCtx = cctx
+		e.ctl.OnFire = cancel
+	}
 	perr := e.perform(cl)
+	e.opCtx = nil
 	e.ctl.Disarm()
 	fired := e.ctl.Fired
 	c.Eval(1)
@@ -651,7 +672,7 @@ func (e *env) errorAt(k int, name string, before, after durable, keys *netsim.Re
 		c.Inconclusive(fmt.Sprintf("error at boundary %d not injected", k))
 		return
 	}
-	c.Nontrivial(e.point(k, name, "error"))
+	c.Nontrivial(e.point(k, name, pfx))
 	det := map[string]any{"scenario": e.scen, "op": e.op, "boundary": k, "boundary_name": name, "first_result": fmt.Sprint(perr), "before": before.Text, "after": after.Text}
 	if perr == nil {
 		c.Count("error_swallowed."+e.op, 1)
@@ -666,7 +687,7 @@ func (e *env) errorAt(k int, name string, before, after durable, keys *netsim.Re
 		for _, d := range e.liveAgrees(cl) {
 			det2 := copyMap(det)
 			det2["disagreement"] = d
-			c.Violation("error:live-disagrees-with-storage:"+e.op, "after a failed (non-fatal) write the live object no longer agrees with storage", det2)
+			c.Violation(pfx+":live-disagrees-with-storage:"+e.op, "after a failed (non-fatal) write the live object no longer agrees with storage", det2)
 			return
 		}
 	}
@@ -676,12 +697,12 @@ func (e *env) errorAt(k int, name string, before, after durable, keys *netsim.Re
 		mid := e.observeDir(midDir, keys)
 		os.RemoveAll(midDir)
 		for _, inv := range mid.Invariants {
-			c.Violation("error:invariant:"+e.op+":"+invKey(inv), "after an injected storage error the durable state violates a structural invariant: "+inv, det)
+			c.Violation(pfx+":invariant:"+e.op+":"+invKey(inv), "after an injected storage error the durable state violates a structural invariant: "+inv, det)
 		}
 		if mid.Text != before.Text && mid.Text != after.Text && !e.allowed[mid.Text] {
 			det2 := copyMap(det)
 			det2["observed"] = mid.Text
-			c.Violation("error:intermediate-state:"+e.op, "after an injected storage error the durable state is neither the before- nor the after-state", det2)
+			c.Violation(pfx+":intermediate-state:"+e.op, "after an injected storage error the durable state is neither the before- nor the after-state", det2)
 			return
 		}
 		if perr != nil && mid.Text == after.Text && name != "rollback" {
@@ -690,7 +711,7 @@ func (e *env) errorAt(k int, name string, before, after durable, keys *netsim.Re
 		if perr == nil && mid.Text != after.Text {
 			det2 := copyMap(det)
 			det2["observed"] = mid.Text
-			c.Violation("error:success-reported-but-not-stored:"+e.op, "the operation reported success although the write failed and the durable state is unchanged", det2)
+			c.Violation(pfx+":success-reported-but-not-stored:"+e.op, "the operation reported success although the write failed and the durable state is unchanged", det2)
 			return
 		}
 		if mid.Text == after.Text {
@@ -701,7 +722,7 @@ func (e *env) errorAt(k int, name string, before, after durable, keys *netsim.Re
 	if e.op == "tree-create-eager" || e.op == "tree-create-deferred" {
 		// creation is retried from a fresh open, as a restarting client would
 		if rerr := cl.Restart(); rerr != nil {
-			c.Violation("error:reopen-failed:"+e.op, "after a failed creation the space cannot be reopened", det)
+			c.Violation(pfx+":reopen-failed:"+e.op, "after a failed creation the space cannot be reopened", det)
 			return
 		}
 	}
@@ -710,7 +731,7 @@ func (e *env) errorAt(k int, name string, before, after durable, keys *netsim.Re
 	if rerr != nil {
 		det2 := copyMap(det)
 		det2["resubmit_error"] = rerr.Error()
-		c.Violation("error:resubmit-rejected:"+e.op, "after a failed write the same input is not accepted again", det2)
+		c.Violation(pfx+":resubmit-rejected:"+e.op, "after a failed write the same input is not accepted again", det2)
 		return
 	}
 	finDir, err := e.snapshotOf(cl, "fin")
@@ -722,10 +743,10 @@ func (e *env) errorAt(k int, name string, before, after durable, keys *netsim.Re
 	if fin.Text != after.Text {
 		det2 := copyMap(det)
 		det2["observed"] = fin.Text
-		c.Violation("error:resubmit-wrong-state:"+e.op, "re-submitting the input after a failed write does not yield the state a fault-free run yields", det2)
+		c.Violation(pfx+":resubmit-wrong-state:"+e.op, "re-submitting the input after a failed write does not yield the state a fault-free run yields", det2)
 	}
 	for _, inv := range fin.Invariants {
-		c.Violation("error:invariant-after-resubmit:"+e.op+":"+invKey(inv), "after re-submission the durable state violates a structural invariant: "+inv, det)
+		c.Violation(pfx+":invariant-after-resubmit:"+e.op+":"+invKey(inv), "after re-submission the durable state violates a structural invariant: "+inv, det)
 	}
 }
 
